@@ -112,11 +112,11 @@ Definition csv_head (recs : list (list bytes)) : nat := count_prefix (fun r => l
 Definition join_nl (lines : list bytes) : bytes := flat_map (fun l => l ++ [x0a]) lines.
 
 (** footnote list of a table text (same segmentation as Render.text_csv_ok) *)
-Definition table_foot (tlines : list bytes) (nrecs : nat) : option (list (nat * bytes)) :=
+Definition table_foot (relax : bool) (tlines : list bytes) (nrecs : nat) : option (list (nat * bytes)) :=
   let rl := map runes tlines in
   let nhdr := count_prefix ends_bar rl in
   let nrows := nrecs - nhdr - 1 in
-  let ntab := nhdr + nrows + (if 1 <? nrows then 1 else 0) in
+  let ntab := nhdr + nrows + (if (if relax then 1 <? nrows else true) then 1 else 0) in
   omap' parse_footer (skipn ntab rl).
 
 Fixpoint nodupb (l : list nat) : bool :=
@@ -169,7 +169,7 @@ Definition in_block (b : tblock) (w : bytes * nat * bytes) : bool :=
   let row := snd (fst w) in (tb_start b <=? row) && (row <? tb_start b + length (tb_recs b)).
 
 (** the chunks of one table *)
-Fixpoint run_chunks_ok (fields : list bytes) (tabs : list (list bytes * rtable))
+Fixpoint run_chunks_ok (relax : bool) (fields : list bytes) (tabs : list (list bytes * rtable))
          (tchunks : list (list bytes)) (cchunks : list (list (list bytes))) (cstarts : list nat)
          (st_t st_c : list (bytes * bytes)) (wraw : list bytes) : option (list tblock) :=
   match tabs, tchunks, cchunks, cstarts with
@@ -185,23 +185,23 @@ Fixpoint run_chunks_ok (fields : list bytes) (tabs : list (list bytes * rtable))
           let b := mkTB start trecs abs in
           let mine := filter (fun raw => match parse_wline raw with Some w => in_block b w | None => false end) wraw in
           let nhdr := count_prefix ends_bar (map runes tlines) in
-          if text_csv_ok start (join_nl tlines) trecs (join_nl mine)
+          if text_csv_ok_gen relax start (join_nl tlines) trecs (join_nl mine)
              && match key_unit fields key with
                 | Some u => beq u (field (nth (nhdr - 1) trecs []) 1)
                 | None => true
                 end
-             && match table_foot tlines (length trecs) with
+             && match table_foot relax tlines (length trecs) with
                 | Some foot => nodupb (map fst foot)
                 | None => false
                 end
-          then option_map (cons b) (run_chunks_ok fields tabs' tchunks' cchunks' cstarts' st_t' st_c' wraw)
+          then option_map (cons b) (run_chunks_ok relax fields tabs' tchunks' cchunks' cstarts' st_t' st_c' wraw)
           else None
       | _, _ => None
       end
   | _, _, _, _ => None
   end.
 
-Definition run_ok (fields : list bytes) (tabs : list (list bytes * rtable))
+Definition run_ok_gen (relax : bool) (fields : list bytes) (tabs : list (list bytes * rtable))
            (text : bytes) (recs : list (list bytes)) (warns : bytes) : bool :=
   match tabs with
   | [] => knil recs && knil (split_nl [] text) && knil (split_nl [] warns)
@@ -209,7 +209,7 @@ Definition run_ok (fields : list bytes) (tabs : list (list bytes * rtable))
       let tchunks := split_at (fun l : bytes => knil l) [] (split_nl [] text) in
       let cchunks := split_at blank_rec [] recs in
       let wraw := split_nl [] warns in
-      match omap' parse_wline wraw, run_chunks_ok fields tabs tchunks cchunks (chunk_starts 1 cchunks) [] [] wraw with
+      match omap' parse_wline wraw, run_chunks_ok relax fields tabs tchunks cchunks (chunk_starts 1 cchunks) [] [] wraw with
       | Some ws, Some blocks =>
           forallb (block_warns_shown ws) blocks
           && forallb (wline_reported blocks) ws
@@ -217,3 +217,8 @@ Definition run_ok (fields : list bytes) (tabs : list (list bytes * rtable))
       | _, _ => false
       end
   end.
+
+(** [run_ok]: what the property says; [run_ok_gen true]: the same, except that a
+    table of fewer than two rows may lack, in the text, the summary record the
+    CSV has (known finding C16_csv_summary_one_row) *)
+Definition run_ok := run_ok_gen false.
